@@ -29,7 +29,14 @@ def run(idx, rep, tier):
     buffers.r_guardstore(idx, rep, modules=set(MODS), floor=3)
     loops.r_loop(idx, rep, MODS, floor=5, allowed=("CAP", "STRUCT"))
     # R-FACEROLE: rows 0-2 of a face are vertices (degree 1), row 3 the unit normal (degree 0) wherever a face is read or written
-    dg = degree.r_degree(idx, rep, modules=MODS, rule="R-FACEROLE", floor=5, face_arrays=degree.EPA_FACES)
+    import ast as _ast
+    faces = dict(degree.EPA_FACES)
+    f_epa = idx.func("distance3d.epa::epa")
+    for st in _ast.walk(f_epa.node):
+        if isinstance(st, _ast.Assign) and isinstance(st.targets[0], _ast.Tuple) and isinstance(st.value, _ast.Call) and "find_face_closest_to_origin" in _ast.unparse(st.value.func) \
+                and len(st.targets[0].elts) == 2 and isinstance(st.targets[0].elts[1], _ast.Name):
+            faces[st.targets[0].elts[1].id] = degree.EPA_FACES["closest_face"]      # whatever the local face row is called
+    dg = degree.r_degree(idx, rep, modules=MODS, rule="R-FACEROLE", floor=5, face_arrays=faces)
     from fractions import Fraction
     f = idx.func("distance3d.epa::epa")
     res = dg.analyse(f)
